@@ -535,7 +535,8 @@ def write_evidence(args, agg, hellos, wall, n_runs, n_twins, n_echo, lines, rc):
                 "F1_failing_reads": agg.fired["F1"], "F2_drop_volatile_state": agg.fired["F2"],
                 "F3_persistence_round_trip": agg.fired["F3"], "F4_poisoned_companion_failures": agg.fired["F4"],
                 "F5_warning_raised_in_read": agg.fired["F5"],
-                "F6_read_under_hostile_host_state (little stack left / numpy errstate raise)": agg.fired["F6"],
+                "F8_caller_edited_its_own_argument_between_renders": agg.fired["F8"],
+                "F6_F7_read_under_hostile_host_state (little stack left / numpy errstate raise / injected KeyboardInterrupt after N library lines)": agg.fired["F6"],
             },
             "runs_in_which_fault_fired": dict(agg.fired_runs),
             "fault_configurations": dict(agg.fault_sets),
@@ -559,7 +560,7 @@ def write_evidence(args, agg, hellos, wall, n_runs, n_twins, n_echo, lines, rc):
             "runs_that_used_their_whole_step_budget": agg.truncated,
             "step_budget_note": "every run is given a step budget (mixed 16-80, sweep/deck 150-220, marathon 4000/12000) and the scheduler always spends it; nothing is cut short by a wall-clock cap unless harness_errors > 0",
             "slowest_run_wall_s": round(agg.max_run_wall, 2),
-            "per_run_timeout_s": 40,
+            "per_child_timeout_s": 120,
             "violating_runs": agg.violation_count,
             "harness_errors": sum(v for k, v in agg.n.items() if k.endswith("harness_error")),
             "components": {"real": ["cr.cube (working tree of %s)" % args.repo, "numpy", "scipy", "json"], "stub": []},
